@@ -117,8 +117,10 @@ package transport
 //@   ensures calls(Write) == 1 ==> arg(Write, 0, 0) == dc.c && atcall(Write, 0, wireCopy(arg(Write, 0, 1), q, assignedQid, dc.isTcp)) && result == ret(Write, 0, 1)
 //@   ensures calls(Write) == 0 ==> result != nil
 
-// CloseWithErr (C07): closing happens once (sync.Once); the run that closes records a non-nil
-// error BEFORE it closes the notification channel, so every waiter woken by the close finds it.
+// CloseWithErr (C07, C08): closing happens once (sync.Once); the run that closes records a non-nil
+// error BEFORE it closes the notification channel, so every waiter woken by the close finds it;
+// the closed flag is raised FIRST, before waiters are woken and before the (possibly slow) close of
+// the socket, so a woken caller that retries never gets this dead connection again.
 //@ func (dc *TraditionalDnsConn) CloseWithErr [C07]
 //@   log tdcCloseWithErr
 //@   requires dc != nil
@@ -130,6 +132,7 @@ package transport
 //@   modifies *
 //@   preserves comp(TraditionalDnsConn.res)
 //@   ensures calls(chanClose) == 1 && arg(chanClose, 0, 0) == dc.closeNotify && calls(Close) == 1 && arg(Close, 0, 0) == dc.c
+//@   ensures calls(Store) == 1 && arg(Store, 0, 1) == true && callpos(Store, 0) < callpos(chanClose, 0) && callpos(Store, 0) < callpos(Close, 0)
 //@   ensures closed(dc.closeNotify)
 
 // exchange (C01, C02, C07).
@@ -148,6 +151,7 @@ package transport
 //@   modifies *
 //@   preserves comp(TraditionalDnsConn.res)
 //@   ensures[C07] (result_0 != nil) != (result_1 != nil)
+//@   ensures[C08] calls(writeQuery) >= 1 && lastret(writeQuery) != nil ==> calls(tdcCloseWithErr) == 1 && result_1 != nil
 //@   ensures[C07] calls(CompareAndSwap) <= 1 && (calls(CompareAndSwap) == 1 && ret(CompareAndSwap, 0) ==> calls(SetReadDeadline) == 1)
 //@   ensures[C01] result_0 != nil ==> len(*result_0) >= 12 && be16(*result_0) == old(be16(q))
 //@   ensures[C01] result_0 != nil ==> calls(addQueueC) == 1 && lastarg(chanRecv, 0) == ret(addQueueC, 0, 1) && result_0 == lastret(chanRecv, 0)
